@@ -34,6 +34,7 @@ from ZODB import POSException
 from ZODB import utils
 from ZODB.blob import SAVEPOINT_SUFFIX
 from ZODB.blob import Blob
+from ZODB.blob import remove_committed
 from ZODB.blob import remove_committed_dir
 from ZODB.blob import rename_or_copy_blob
 from ZODB.ExportImport import ExportImport
@@ -643,8 +644,16 @@ class Connection(ExportImport):
                     assert serial is not None  # See _uncommitted
                     self._modified.pop()  # not modified
                     continue
-                s = self._storage.storeBlob(oid, serial, p, blobfilename,
-                                            '', transaction)
+                try:
+                    s = self._storage.storeBlob(oid, serial, p, blobfilename,
+                                                '', transaction)
+                except BaseException:
+                    # We have taken the file over from the blob.  If the
+                    # storage did not take it (e.g. a ConflictError), it
+                    # would stay in the temporary directory for ever.
+                    if os.path.exists(blobfilename):
+                        remove_committed(blobfilename)
+                    raise
                 # we invalidate the object here in order to ensure
                 # that that the next attribute access of its name
                 # unghostify it, which will cause its blob data
